@@ -545,6 +545,9 @@ class Reader(ABC):
         head = dict(zip(self.head.dtype.names, self.head.item()))
         scans = self.scans
 
+        # Compute the coordinates first: this applies the clock drift adjustment (POD)
+        # to the scanline times, which would otherwise differ from the coordinates.
+        self.get_lonlat()
         times = self.get_times()
         line_numbers = scans["scan_line_number"]
         counts = self.get_counts()
